@@ -195,8 +195,8 @@ func (cx *Ctx) c13WalkEntry(e *Entry, r *Report) *c13Walk {
 			cw.evs = append(cw.evs, hev{ev, cw.w, e})
 		}
 	})
-	if cw.w.over {
-		r.toolErr("frame budget exceeded for %s", entryKey(e))
+	if cw.w.over || cw.w.cut > 0 {
+		r.toolErr("frame budget exceeded / chain truncated for %s", entryKey(e))
 	}
 	return cw
 }
@@ -697,13 +697,21 @@ func followedBy(a, b *Event) bool {
 	if sa.Block() == sb.Block() {
 		return instrIndex(sa) < instrIndex(sb)
 	}
-	// paths leaving a's block
-	for _, s := range sa.Block().Succs {
-		if !mustPassFrom(sa.Parent(), s, func(x ssa.Instruction) bool { return x == sb }, nil) {
-			return false
-		}
+	// every feasible path leaving a's block passes b's site (boolean flags set on
+	// the way are tracked, so `changed = true … if changed { store }` is seen through)
+	if len(sa.Block().Succs) == 0 {
+		return false
 	}
-	return len(sa.Block().Succs) > 0
+	return mustReachPS(sa.Parent(), sa.Block(), blockPredFor(sa.Block()), sb)
+}
+
+// blockPredFor: a predecessor to enter b from when b has exactly one (phi
+// values of b are then determined); nil otherwise.
+func blockPredFor(b *ssa.BasicBlock) *ssa.BasicBlock {
+	if len(b.Preds) == 1 {
+		return b.Preds[0]
+	}
+	return nil
 }
 
 // ------------------------------------------------------------ abort classes
@@ -926,3 +934,173 @@ func (cx *Ctx) reviewedDivisor(s abortSite) string {
 	return ""
 }
 
+
+func init() {
+	dumps["c04dbg"] = func(cx *Ctx) {
+		for _, e := range cx.entriesOfModule("htlc", "abci") {
+			ee := e
+			cw := cx.c13WalkEntry(&ee, &Report{})
+			for _, x := range cw.evs {
+				if strings.HasPrefix(x.ev.Kind, "assign:AssetSupply.Time") || strings.HasPrefix(x.ev.Kind, "delta:AssetSupply.Time") {
+					fmt.Printf("%s %s = %s\n   facts: %s\n", x.ev.Pos(cx), x.ev.Kind, x.ev.Args[0].LooseString(), factStrings(x.w.FactsAt(x.ev.Fr, x.ev.Site)))
+				}
+			}
+		}
+	}
+}
+
+// ------------------------------------------------------------ lost updates
+
+type lostUpdate struct {
+	e        *Entry
+	read     *Event // the store read inside the getter
+	mid, end *Event // the intervening write and the stale write-back
+	getter   string
+	sameKey  bool
+}
+
+// lostUpdates: a value read from prefix P (through a getter call g), then a
+// write S' under P, then a write S under P whose value derives from g without
+// passing through the call that performed S'. sameKey: S' and S write the same
+// key term (a definite overwrite); otherwise the keys may alias.
+func (cx *Ctx) lostUpdates(cw *c13Walk) []lostUpdate {
+	var out []lostUpdate
+	var sets, reads []hev
+	for _, x := range cw.evs {
+		switch x.ev.Kind {
+		case "store.set":
+			sets = append(sets, x)
+		case "store.get", "store.iter", "store.riter":
+			reads = append(reads, x)
+		}
+	}
+	isAncestorCall := func(pos token.Pos, ev *Event) bool {
+		for f := ev.Fr; f != nil; f = f.Parent {
+			if f.Call != nil && f.Call.Pos() == pos {
+				return true
+			}
+		}
+		return false
+	}
+	for _, S := range sets {
+		if len(S.ev.Prefix) != 1 || len(S.ev.Args) < 2 {
+			continue
+		}
+		P := S.ev.Prefix[0]
+		for _, Sp := range sets {
+			if Sp.ev == S.ev || !hasPrefix(Sp.ev, P) || !orderedBefore(Sp.ev, S.ev) {
+				continue
+			}
+			// getter subterms of S's value, not descending into calls that contain S'
+			var gs []*Term
+			var visit func(t *Term)
+			visit = func(t *Term) {
+				if t == nil {
+					return
+				}
+				if t.Op == "call" && t.Site.IsValid() {
+					if isAncestorCall(t.Site, Sp.ev) {
+						return // result of the call that performed the intervening write
+					}
+					gs = append(gs, t)
+				}
+				for _, a := range t.Args {
+					visit(a)
+				}
+			}
+			visit(S.ev.Args[1])
+			for _, g := range gs {
+				for _, R := range reads {
+					if !hasPrefix(R.ev, P) || !isAncestorCall(g.Site, R.ev) {
+						continue
+					}
+					if orderedBefore(R.ev, Sp.ev) {
+						out = append(out, lostUpdate{cw.e, R.ev, Sp.ev, S.ev, g.Name, Sp.ev.Args[0].LooseString() == S.ev.Args[0].LooseString()})
+					}
+				}
+			}
+		}
+	}
+	return out
+}
+
+func init() {
+	dumps["lostupdate"] = func(cx *Ctx) {
+		for _, e := range cx.EntriesOf("msg", "abci", "callback") {
+			ee := e
+			cw := cx.c13WalkEntry(&ee, &Report{})
+			seen := map[string]bool{}
+			for _, lu := range cx.lostUpdates(cw) {
+				k := fmt.Sprintf("%s %s: read via %s at %s; intervening write %s; stale write-back %s  sameKey=%v prefix=%s\n    read chain %s\n    mid chain  %s\n    end chain  %s", e.Module, e.Name, lu.getter, lu.read.Pos(cx), lu.mid.Pos(cx), lu.end.Pos(cx), lu.sameKey, lu.end.Prefix[0], lu.read.Fr, lu.mid.Fr, lu.end.Fr)
+				if !seen[k] {
+					seen[k] = true
+					fmt.Println(k)
+				}
+			}
+		}
+	}
+}
+
+// lostUpdateRule reports, for the entries of the given modules, every stale
+// write-back (see lostUpdates). Writes under different key terms may alias
+// (transfer to self); they are reported unless a dominating fact separates the
+// differing key components.
+func (cx *Ctx) lostUpdateRule(r *Report, mods []string, minSets int) {
+	nSets := 0
+	for _, e := range cx.EntriesOf("msg", "abci", "callback", "hook") {
+		in := false
+		for _, m := range mods {
+			if e.Module == m || strings.HasPrefix(e.Module, m+"/") {
+				in = true
+			}
+		}
+		if !in {
+			continue
+		}
+		ee := e
+		cw := cx.c13WalkEntry(&ee, r)
+		for _, x := range cw.evs {
+			if x.ev.Kind == "store.set" {
+				nSets++
+			}
+		}
+		seen := map[string]bool{}
+		for _, lu := range cx.lostUpdates(cw) {
+			key := entryKey(&ee) + "|" + lu.end.Prefix[0]
+			if seen[key] {
+				continue
+			}
+			if !lu.sameKey {
+				// keys differ textually: separated by a fact?
+				ka, kb := lu.mid.Args[0], lu.end.Args[0]
+				sep := false
+				if ka.Op == "call" && kb.Op == "call" && len(ka.Args) == len(kb.Args) {
+					for i := range ka.Args {
+						a, b := ka.Args[i].LooseString(), kb.Args[i].LooseString()
+						if a == b {
+							continue
+						}
+						for _, f := range cw.w.FactsAt(lu.end.Fr, lu.end.Site) {
+							if strings.Contains(f.Text, a) && strings.Contains(f.Text, b) && (strings.Contains(f.Text, "Equal") || strings.Contains(f.Text, "==") || strings.Contains(f.Text, "!=")) {
+								sep = true
+							}
+						}
+					}
+				}
+				if sep {
+					continue
+				}
+			}
+			seen[key] = true
+			how := "the same key"
+			if !lu.sameKey {
+				how = "a key of the same record family that may be the same record (nothing on the path separates " + trunc(lu.mid.Args[0].LooseString(), 90) + " from " + trunc(lu.end.Args[0].LooseString(), 90) + ")"
+			}
+			r.violate("lost-update", key, lu.end.Pos(cx), "stale write-back: the value stored at "+lu.end.Pos(cx)+" derives from a read through "+lu.getter+" ("+lu.read.Pos(cx)+") that precedes an intervening write at "+lu.mid.Pos(cx)+" ("+shortFn(lu.mid.Fr.Fn)+") to "+how+"; the intervening update is overwritten / ignored")
+		}
+	}
+	if nSets < minSets {
+		r.toolErr("lost-update: only %d store writes analysed (≥%d confirmed)", nSets, minSets)
+	}
+	r.ok("lost-update", strings.Join(mods, ","), "", fmt.Sprintf("%d store writes on message/block/callback paths checked: no value read before an intervening write of the same record family is written back afterwards", nSets))
+}
